@@ -1560,7 +1560,9 @@ def _run(case, ctx):
         try:
             ddf0 = frames.partition(pdf, case["part"])
             pre_ddf = _pre(ddf0, pre, pdf, deterministic=op["kind"] not in ("single", "agg", "value_counts"))
-            parts = dask.compute(*[pre_ddf.partitions[i] for i in range(pre_ddf.npartitions)], scheduler="sync")
+            # one optimised plan for the whole of X, as in the groupby graph (slicing X with .partitions[i] can be planned
+            # differently, e.g. where reset_index numbers the rows)
+            parts = dask.compute(*pre_ddf.to_delayed(), scheduler="sync")
             pdf = pd.concat(parts) if parts else pre_ddf._meta
             _PARTLEN[:] = [len(x) for x in parts]
         except NotImplementedError as ex:
@@ -1700,10 +1702,18 @@ FLOORS = {
                            "pre-step:shuffle+repartition&keys-relation:superset": 40, "pre-step-then:filter": 290,
                            "pre-step-then:assign-key": 240},
               "sets": {"programs": 2000, "plans": 120}},
-    "thorough": {"evaluations": 30000, "distinct_nontrivial": 22000, "max_skipped_fraction": 0.3,
+    "thorough": {"evaluations": 36000, "distinct_nontrivial": 25000, "max_skipped_fraction": 0.3,
                  "counters": {"compared": 26000, "cmp_ordered": 4400, "cmp_keyed_multiset": 22000, "plan_shuffle": 12000,
                               "plan_no_shuffle": 14500, "order_dependent_main": 4400, "order_dependent_after_shuffle": 3800,
-                              "na_key_cases": 7800, "categorical_key_cases": 4000, "empty_partition_cases": 5900},
+                              "na_key_cases": 7800, "categorical_key_cases": 4000, "empty_partition_cases": 5900,
+                              "pre-step:shuffle&keys-relation:superset": 800, "pre-step:shuffle&keys-relation:equal": 440,
+                              "pre-step:shuffle&keys-relation:subset": 190, "pre-step:shuffle&keys-relation:overlap": 190,
+                              "pre-step:shuffle&keys-relation:disjoint": 480, "pre-step:agg&keys-relation:superset": 470,
+                              "pre-step:agg&keys-relation:equal": 170, "pre-step:merge&keys-relation:superset": 300,
+                              "pre-step:merge&keys-relation:equal": 230, "pre-step:set_index&keys-relation:disjoint": 150,
+                              "pre-step:repartition&keys-relation:none": 750,
+                              "pre-step:shuffle+repartition&keys-relation:superset": 290, "pre-step-then:filter": 1200,
+                              "pre-step-then:assign-key": 970, "pre-step-then:assign": 1250},
                  "sets": {"programs": 25000, "plans": 310}},
 }
 EXHAUSTIVE_SPACE = {
